@@ -62,6 +62,66 @@ def _solve_worker(args: Tuple[int, str, float]) -> Tuple[int, str, str, float, s
     return k, st, be, secs, raw
 
 
+def run_kills(prop: str, mods: List[Any], tier: str) -> List[Dict[str, Any]]:
+    """Kill matrix: apply each catalogued breaking edit to a scratch copy; the check must name the expected obligation."""
+    import shutil
+    import subprocess
+    import tempfile
+
+    kills: List[Tuple[str, str, str, str]] = []
+    harmless: List[Tuple[str, str, str]] = []
+    for m in mods:
+        kills.extend(getattr(m, 'KILLS', []))
+        harmless.extend(getattr(m, 'HARMLESS', []))
+    if tier != 'thorough':
+        kills = kills[: int(os.environ.get('VERIF_QUICK_KILLS', '1'))]
+        harmless = harmless[:0]
+    out: List[Dict[str, Any]] = []
+    jobs = [('kill',) + tuple(k) for k in kills] + [('harmless',) + tuple(h) + ('',) for h in harmless]
+    for kind, relpath, old, new, expect in jobs:
+        base = os.environ.get('TMPDIR') or '/var/tmp'
+        d = tempfile.mkdtemp(prefix='verif.kill.', dir=base)
+        rec: Dict[str, Any] = {'kind': kind, 'file': relpath, 'old': old[:120], 'new': new[:120], 'expect': expect}
+        try:
+            subprocess.run(['rsync', '-a', '--exclude=*.so', '--exclude=*.c', '--exclude=__pycache__', os.path.join(overlay.REPO, 'falcon'), d + '/'], check=True)
+            fp = os.path.join(d, relpath)
+            with open(fp, encoding='utf-8') as f:
+                src = f.read()
+            if src.count(old) != 1:
+                rec['result'] = 'not-applicable'
+                rec['detail'] = 'anchor text occurs %d times in the current source' % src.count(old)
+                out.append(rec)
+                continue
+            with open(fp, 'w', encoding='utf-8') as f:
+                f.write(src.replace(old, new))
+            env = dict(os.environ, PYVC_REPO=d, PYVC_EVIDENCE_DIR=os.path.join(d, 'ev'), PYVC_REPLAY_DIR=os.path.join(d, 'rp'), PYVC_NO_KILLS='1')
+            p = subprocess.run([sys.executable, '-B', '-m', 'pyvc.cli', prop, '--tier', 'quick'], cwd=VERIF, env=env, capture_output=True, text=True, timeout=1800)
+            viol = []
+            for ln in p.stdout.splitlines():
+                if ln.startswith('VIOLATION'):
+                    rp = ln.split('replay=')[1].split()[0]
+                    try:
+                        with open(rp) as f:
+                            viol.append(json.load(f).get('obligation', ''))
+                    except Exception:
+                        viol.append(ln)
+            rec['exit'] = p.returncode
+            rec['violated'] = sorted(set(viol))[:8]
+            if kind == 'kill':
+                rec['result'] = 'killed' if p.returncode == 1 and any(expect in o for o in viol) else ('killed-other-obligation' if p.returncode == 1 else 'SURVIVED')
+            else:
+                rec['result'] = 'green' if p.returncode == 0 else 'FALSE-ALARM'
+            if rec['result'] in ('SURVIVED', 'FALSE-ALARM'):
+                rec['detail'] = p.stdout[-1500:]
+        except Exception:
+            rec['result'] = 'error'
+            rec['detail'] = traceback.format_exc()[-1500:]
+        finally:
+            shutil.rmtree(d, ignore_errors=True)
+        out.append(rec)
+    return out
+
+
 def load_known() -> Dict[str, Any]:
     p = os.path.join(VERIF, 'known_findings.json')
     if not os.path.exists(p):
@@ -81,7 +141,7 @@ def match_known(known: Dict[str, Any], prop: str, ob: Dict[str, Any]) -> Optiona
 
 
 def write_replay(prop: str, ob: Dict[str, Any], hdef: Any, concrete: Tuple[str, List[Tuple[str, bool]], str], reproduced: bool, solver_out: str) -> str:
-    d = os.path.join(VERIF, 'replays')
+    d = os.environ.get('PYVC_REPLAY_DIR') or os.path.join(VERIF, 'replays')
     os.makedirs(d, exist_ok=True)
     tag = hashlib.sha1((ob['name'] + ob['path']).encode()).hexdigest()[:8]
     safe = ob['name'].replace(':', '.').replace('#', '-').replace('/', '_')
@@ -251,7 +311,7 @@ def main(argv: Optional[List[str]] = None) -> int:
                     seen_known.add(key)
                     known_lines.append('KNOWN-FINDING: property=%s %s %s' % (prop, kk['obligation'], kk.get('what', '')))
                 continue
-            d = os.path.join(VERIF, 'replays')
+            d = os.environ.get('PYVC_REPLAY_DIR') or os.path.join(VERIF, 'replays')
             os.makedirs(d, exist_ok=True)
             p = os.path.join(d, '%s-bounded-%s.json' % (prop, hashlib.sha1(json.dumps(fl, default=str, sort_keys=True).encode()).hexdigest()[:8]))
             with open(p, 'w') as f:
@@ -274,9 +334,15 @@ def main(argv: Optional[List[str]] = None) -> int:
     if not hs:
         vac.append('no harnesses')
 
+    kill_results: List[Dict[str, Any]] = []
+    if not os.environ.get('PYVC_NO_KILLS') and not a.filter and not violations:
+        kill_results = run_kills(prop, mods, tier)
+        for kr in kill_results:
+            if kr['result'] in ('SURVIVED', 'FALSE-ALARM', 'error'):
+                vac.append('kill matrix: %s %s -> %s (%s)' % (kr['kind'], kr['file'], kr['result'], kr.get('expect')))
     wall = time.time() - t_start
     _write_evidence(prop, tier, seed, entry, mods, results, allobs, bounded, wall, hs=hs, violations=violations, known_lines=known_lines,
-                    undecided=undecided, errors=errors, vac=vac)
+                    undecided=undecided, errors=errors, vac=vac, kills=kill_results)
     for ln in known_lines:
         print(ln)
     nd = sum(1 for ob in allobs if ob['status'] == 'discharged')
@@ -301,8 +367,9 @@ def main(argv: Optional[List[str]] = None) -> int:
 
 def _write_evidence(prop: str, tier: str, seed: int, entry: Dict[str, Any], mods: Any, results: List[Dict[str, Any]], allobs: List[Dict[str, Any]],
                     bounded: List[Dict[str, Any]], wall: float, hs: Any = None, violations: Any = None, known_lines: Any = None, undecided: Any = None,
-                    errors: Any = None, vac: Any = None, error: Optional[str] = None) -> None:
-    os.makedirs(os.path.join(VERIF, 'evidence'), exist_ok=True)
+                    errors: Any = None, vac: Any = None, error: Optional[str] = None, kills: Any = None) -> None:
+    evdir = os.environ.get('PYVC_EVIDENCE_DIR') or os.path.join(VERIF, 'evidence')
+    os.makedirs(evdir, exist_ok=True)
     functions: Dict[str, Any] = {}
     stubs: set = set()
     inlined: set = set()
@@ -372,6 +439,7 @@ def _write_evidence(prop: str, tier: str, seed: int, entry: Dict[str, Any], mods
         'undecided': sorted(set(undecided or [])),
         'checker_errors': [list(e) for e in (errors or [])] + ([['setup', error, 'crash']] if error else []),
         'vacuity': vac or [],
+        'kill_matrix': kills or [],
         'explanation': entry.get('explanation', ''),
         # generic keys as well (accepted fallback of the schema)
         'evaluations': max(1, n_ob + sum(int(b.get('cases', 0)) for b in bounded)),
@@ -388,7 +456,7 @@ def _write_evidence(prop: str, tier: str, seed: int, entry: Dict[str, Any], mods
         'wall_s': round(wall, 2),
         'violations': len(violations or []),
     }
-    with open(os.path.join(VERIF, 'evidence', '%s.json' % prop), 'w') as f:
+    with open(os.path.join(evdir, '%s.json' % prop), 'w') as f:
         json.dump(ev, f, indent=1, default=str)
 
 
